@@ -2,7 +2,6 @@ package http2utils
 
 import (
 	"bytes"
-	"crypto/rand"
 	"fmt"
 	"log"
 	"path/filepath"
@@ -102,7 +101,9 @@ func AddPadding(b []byte) []byte {
 
 	b[0] = uint8(n)
 
-	_, _ = rand.Read(b[nn+1 : nn+n])
+	// Padding octets are zero on the wire (RFC 7540 6.1). Resize reuses
+	// capacity, so what is there may be left over from an earlier frame.
+	clear(b[nn+1:])
 
 	return b
 }
